@@ -296,6 +296,58 @@ example : (mintFn ⟨500000000000000000⟩ 0 (31536000 * 1000000000) ⟨40000000
 example : let s' := mintFn ⟨500000000000000000⟩ 0 (315360000 * 1000000000) ⟨490000000000000, 500000000000000, some 0⟩
     s'.supFee + s'.supBond = SupplyCap := by decide
 
+/-! ### the ratio over a whole history: governance updates interleaved with blocks -/
+
+/-- an accepted update stores a ratio in [0,1]; a refused one stores nothing -/
+theorem setRatio_spec (cur new : Dec) :
+    ((setRatio cur new).2 = true → (setRatio cur new).1 = new ∧ 0 ≤ new.raw ∧ new.raw ≤ PREC)
+    ∧ ((setRatio cur new).2 = false → (setRatio cur new).1 = cur ∧ (new.raw < 0 ∨ PREC < new.raw)) := by
+  unfold setRatio ratioValid
+  by_cases h0 : 0 ≤ new.raw <;> by_cases h1 : new.raw ≤ PREC <;> simp [h0, h1] <;> omega
+
+inductive HOp where
+  | setRatio (r : Dec)
+  | block (nowNs : Int) (fired : Bool)
+
+def hstep (g : Int) (x : Dec × St) : HOp → Dec × St
+  | .setRatio r => ((setRatio x.1 r).1, x.2)
+  | .block n f => (x.1, Mint.block x.1 g n f x.2)
+
+/-- THE STORED RATIO IS ALWAYS IN [0,1] AND THE SUPPLY NEVER PASSES THE CAP, for every interleaving of parameter updates
+    (any proposed value) and blocks (any times): the hypothesis of `split_exact` / `never_above_cap` is an invariant -/
+theorem history_ratio_and_cap (g : Int) (ops : List HOp) (x : Dec × St)
+    (hr0 : 0 ≤ x.1.raw) (hr1 : x.1.raw ≤ PREC) (hcap : x.2.supFee + x.2.supBond ≤ SupplyCap) :
+    let y := ops.foldl (hstep g) x
+    0 ≤ y.1.raw ∧ y.1.raw ≤ PREC ∧ y.2.supFee + y.2.supBond ≤ SupplyCap := by
+  induction ops generalizing x with
+  | nil => exact ⟨hr0, hr1, hcap⟩
+  | cons op ops ih =>
+    simp only [List.foldl_cons]
+    cases op with
+    | setRatio r =>
+      apply ih
+      · show 0 ≤ (setRatio x.1 r).1.raw
+        by_cases h : (setRatio x.1 r).2 = true
+        · obtain ⟨e, h0, _⟩ := (setRatio_spec x.1 r).1 h; rw [e]; exact h0
+        · obtain ⟨e, _⟩ := (setRatio_spec x.1 r).2 (by simpa using h); rw [e]; exact hr0
+      · show (setRatio x.1 r).1.raw ≤ PREC
+        by_cases h : (setRatio x.1 r).2 = true
+        · obtain ⟨e, _, h1⟩ := (setRatio_spec x.1 r).1 h; rw [e]; exact h1
+        · obtain ⟨e, _⟩ := (setRatio_spec x.1 r).2 (by simpa using h); rw [e]; exact hr1
+      · exact hcap
+    | block n f =>
+      apply ih
+      · exact hr0
+      · exact hr1
+      · show (Mint.block x.1 g n f x.2).supFee + (Mint.block x.1 g n f x.2).supBond ≤ SupplyCap
+        unfold Mint.block
+        split
+        · exact never_above_cap x.1 g n x.2 hr0 hr1 hcap
+        · exact hcap
+
+example : (setRatio ⟨500000000000000000⟩ ⟨1500000000000000000⟩) = (⟨500000000000000000⟩, false) := by decide
+example : (setRatio ⟨500000000000000000⟩ ⟨-1⟩).2 = false ∧ (setRatio ⟨500000000000000000⟩ ⟨PREC⟩).2 = true := by decide
+
 end Sunrise.C13
 
 /-! ## Part 3: the transfer ban as a decision table.
